@@ -195,6 +195,12 @@ let sx_doc (d : doc) =
          d.d_species);
      L (A "groups" :: List.map sx_item d.d_groups)]
 
+let rec hist_of_sx (x : sx) : hist =
+  match x with
+  | L [A "G"; g; p] -> XG (str_of_sx g, path_of_sx p)
+  | L [A "H"; p; L lins] -> XH0 (path_of_sx p, List.map (fun l -> List.map hist_of_sx (lst l)) lins)
+  | _ -> failwith "hist"
+
 (* ---------- requests ---------- *)
 let find_hog (fo : forest) (oid : int) : hog option =
   let all = List.concat_map all_of (fo_roots fo) in
@@ -302,6 +308,10 @@ let handle (x : sx) : sx =
         | _ -> failwith "op" in
       let s = srun t fo (List.map op_of ops) (sinit (List.map path_of_sx gs)) in
       L [L (A "genomes" :: List.map sx_path s.ss_genomes); L [A "maps"; sx_int (List.length s.ss_maps)]]
+  | L [A "consistent"; ui; t; d; L hs] ->
+      (match build_taxonomy (bool_of_sx ui) (tree_of_sx t) with
+       | Err e -> L [A "taxerr"; sx_err e]
+       | Ok t' -> L [A "ok"; sx_bool (consistentb t' (doc_of_sx d) (List.map hist_of_sx hs))])
   | L [A "path_up"; lo; an] -> L (List.map sx_path (path_up (path_of_sx lo) (path_of_sx an)))
   | _ -> A "badrequest"
 
